@@ -54,3 +54,19 @@ func checkC03(c *Ctx) {
 	c.floor("T-TABLE(controller.run)", 14, "14 iteration paths + initial state")
 	c.floor("T-SHAPE(list-helpers)", 3, "executeList, listResourceVersion, extractList")
 }
+
+func init() {
+	props = append(props, propSpec{ID: "C04", Level: "other", Run: checkC04,
+		Explanation: "Transition tables of _watcher.run (6 arms; loop-carried session/outch/curVersion/retry/retrych read off the loop-header phis) and _watchSession.run (frame dispatch) compared with the reference: reconnect keeps the output channel, resumes at the version of the last event taken, is re-armed after every session end, only reset() replaces the channel (with a fresh buffer) and the controller re-reads events() every iteration; connect passes {ResourceVersion: session version, Watch: true}.",
+		Assumptions: []string{"the server replays from the resume version", "latency bound is the constant watchRetryDelay; not judged"}})
+}
+
+func checkC04(c *Ctx) {
+	checkWatcherTable(c)
+	checkWatcherAPI(c)
+	checkSessionTable(c)
+	checkSessionFlows(c)
+	checkControllerTable(c) // re-read of watcher.events() per iteration, update+distribute of every watch event
+	c.floor("T-TABLE(_watcher.run)", 9, "8 iteration paths, closure, initial state")
+	c.floor("T-TABLE(_watchSession.run)", 9, "8 distinct cases + prelude")
+}
